@@ -686,6 +686,20 @@ def p_uabs(ev, st, ctx):
     return T.uabs(ctx.args[0])
 
 
+@prim("re:core::num::<impl i(8|16|32|64|128|size)>::abs")
+def p_abs(ev, st, ctx):
+    x = ctx.args[0]
+    # #[rustc_inherit_overflow_checks]: with overflow checks on in the calling crate, abs(MIN) panics ("attempt to negate with overflow")
+    if ev.crate.get("overflow_checks"):
+        precondition(ev, st, ctx, "abs(x): x != MIN", T.ne(x, T.const(1 << (x.w - 1), x.w)))
+    return T.uabs(x)
+
+
+@prim("re:core::num::<impl i(8|16|32|64|128|size)>::wrapping_abs")
+def p_wrapping_abs(ev, st, ctx):
+    return T.uabs(ctx.args[0])
+
+
 @prim("re:core::num::<impl [iu](8|16|32|64|128|size)>::to_le",
       "re:core::num::<impl [iu](8|16|32|64|128|size)>::from_le")
 def p_to_le(ev, st, ctx):
@@ -1480,6 +1494,73 @@ def p_unwrap(ev, st, ctx):
     if isinstance(v.discr, int) and v.discr != okv:
         return NORETURN
     return v.payloads[okv][0]
+
+
+@prim("core::option::Option::<T>::take")
+def p_option_take(ev, st, ctx):
+    r = ctx.args[0]
+    old = ev.load(st, r)
+    if not isinstance(old, EnumV):
+        raise Unsupported("Option::take of %r" % (old,))
+    ev.store(st, r, NONE)
+    return old
+
+
+@prim("core::option::Option::<T>::replace")
+def p_option_replace(ev, st, ctx):
+    r, v = ctx.args
+    old = ev.load(st, r)
+    if not isinstance(old, EnumV):
+        raise Unsupported("Option::replace of %r" % (old,))
+    ev.store(st, r, some(v))
+    return old
+
+
+@prim("core::option::Option::<T>::unwrap_or")
+def p_option_unwrap_or(ev, st, ctx):
+    v, d = ctx.args
+    if not isinstance(v, EnumV):
+        raise Unsupported("Option::unwrap_or of %r" % (v,))
+    if isinstance(v.discr, int):
+        return v.payloads[1][0] if v.discr == 1 else d
+    x = v.payloads[1][0]
+    if isinstance(x, T.T) and isinstance(d, T.T):
+        dd = tconst(v.discr)
+        return T.ite(T.ne(dd, T.const(0, dd.w)), x, d)
+    raise Unsupported("Option::unwrap_or on a symbolic non-scalar")
+
+
+@prim("core::num::NonZero::<T>::new")
+def p_nonzero_new(ev, st, ctx):
+    x = ctx.args[0]
+    if not isinstance(x, T.T):
+        raise Unsupported("NonZero::new of %r" % (x,))
+    nz = T.ne(x, T.const(0, x.w))
+    if nz.op == "const":
+        return some(x) if nz.aux else NONE
+    return EnumV(T.zext(nz, 64), {0: (), 1: (x,)})
+
+
+@prim("core::num::NonZero::<T>::get")
+def p_nonzero_get(ev, st, ctx):
+    return ctx.args[0]
+
+
+@prim("core::mem::replace")
+def p_mem_replace(ev, st, ctx):
+    r, v = ctx.args
+    old = ev.load(st, r)
+    ev.store(st, r, v)
+    return old
+
+
+@prim("core::mem::swap")
+def p_mem_swap(ev, st, ctx):
+    a, b = ctx.args
+    va, vb = ev.load(st, a), ev.load(st, b)
+    ev.store(st, a, vb)
+    ev.store(st, b, va)
+    return UNIT
 
 
 # ================================================================ mem / ptr
